@@ -78,6 +78,45 @@ func crossFileUnwrap(idx int) *ir.Request {
 	return &ir.Request{Files: []*ir.File{b, a}, Generate: []string{b.Name, a.Name}}
 }
 
+// crossFileRootUnwrap: a root-map unwrap message whose map value type (with a repeated unwrap field of
+// its own: combined unwrap) is defined in another file of the same package.
+func crossFileRootUnwrap(idx int) *ir.Request {
+	gp := "example.com/gen/y/v1;yv1"
+	b := &ir.File{Name: fmt.Sprintf("y%d/types.proto", idx), Package: "y.v1", GoPackage: gp, Messages: []*ir.Message{
+		{Name: "Bar", Fields: []*ir.Field{{Name: "px", Number: 1, Kind: "double"}}},
+		{Name: "BarList", Fields: []*ir.Field{{Name: "bars", Number: 1, Kind: "message", TypeName: ".y.v1.Bar", Card: "repeated", Ann: ir.Ann{Unwrap: true}}}},
+	}}
+	a := &ir.File{Name: fmt.Sprintf("y%d/svc.proto", idx), Package: "y.v1", GoPackage: gp, Deps: []string{b.Name}, Messages: []*ir.Message{
+		{Name: "Req", Fields: []*ir.Field{{Name: "q", Number: 1, Kind: "string"}}},
+		{Name: "Resp", Fields: []*ir.Field{{Name: "by_symbol", Number: 1, Kind: "message", TypeName: ".y.v1.BarList", Card: "map", MapKey: "string", Ann: ir.Ann{Unwrap: true}}}},
+	}, Services: []*ir.Service{{Name: "Quotes", Methods: []*ir.Method{{Name: "Get", Input: ".y.v1.Req", Output: ".y.v1.Resp", Config: &ir.HTTPConfig{Path: "/q", Method: "POST"}}}}}}
+	return &ir.Request{Files: []*ir.File{b, a}, Generate: []string{b.Name, a.Name}}
+}
+
+// orderSensitive: shapes whose emission order depends on a sorted or discovery-ordered collection:
+// service and method headers that differ only by case, several enums, several unreferenced
+// messages named *Error (the TS plugins pick them up by naming convention).
+func orderSensitive(idx int) *ir.Request {
+	pkg := "ord.v1"
+	P := "." + pkg + "."
+	f := &ir.File{Name: fmt.Sprintf("ord%d/api.proto", idx), Package: pkg, GoPackage: "example.com/gen/ord;ordpb"}
+	for _, n := range []string{"Zeta", "Alpha", "Mid"} {
+		f.Enums = append(f.Enums, &ir.Enum{Name: n, Values: []ir.EnumValue{{Name: strings.ToUpper(n) + "_UNSPECIFIED", Number: 0}, {Name: strings.ToUpper(n) + "_ONE", Number: 1}}})
+	}
+	f.Messages = []*ir.Message{
+		{Name: "Req", Fields: []*ir.Field{{Name: "q", Number: 1, Kind: "string"}, {Name: "z", Number: 2, Kind: "enum", TypeName: P + "Zeta"}, {Name: "a", Number: 3, Kind: "enum", TypeName: P + "Alpha"}, {Name: "m", Number: 4, Kind: "enum", TypeName: P + "Mid"}}},
+		{Name: "Resp", Fields: []*ir.Field{{Name: "ok", Number: 1, Kind: "bool"}}},
+		{Name: "RateLimitError", Fields: []*ir.Field{{Name: "retry_after", Number: 1, Kind: "int32"}}},
+		{Name: "NotFoundError", Fields: []*ir.Field{{Name: "resource", Number: 1, Kind: "string"}}},
+		{Name: "AuthError", Fields: []*ir.Field{{Name: "realm", Number: 1, Kind: "string"}}, Nested: []*ir.Message{{Name: "InnerError", Fields: []*ir.Field{{Name: "code", Number: 1, Kind: "int32"}}}}},
+	}
+	f.Services = []*ir.Service{{Name: "Ord", BasePath: "/o",
+		Headers: []ir.Header{{Name: "X-Request-Id", Type: "string", Required: true}, {Name: "x-tenant", Type: "string"}, {Name: "Accept-Language", Type: "string"}},
+		Methods: []*ir.Method{{Name: "Do", Input: P + "Req", Output: P + "Resp", Config: &ir.HTTPConfig{Path: "/do", Method: "POST"},
+			Headers: []ir.Header{{Name: "X-Request-ID", Type: "string", Required: true}, {Name: "X-Tenant", Type: "integer"}, {Name: "accept-language", Type: "string"}}}}}}
+	return &ir.Request{Files: []*ir.File{f}, Generate: []string{f.Name}}
+}
+
 // C15: generation is a pure, order-independent function of the definitions.
 func C15(c *Ctx) error {
 	res := c.Res
@@ -89,6 +128,7 @@ func C15(c *Ctx) error {
 	type base struct {
 		req   *ir.Request
 		multi bool
+		reps  int // repetitions of the identical run (0 = the tier's default)
 	}
 	var bases []base
 	for i := 0; i < n; i++ {
@@ -97,19 +137,25 @@ func C15(c *Ctx) error {
 		case 0:
 			req := gen.GenRouteFile(rr, i, gen.RouteOpts{})
 			gen.AddHeaders(rr.Fork("h"), req.Files[0])
-			bases = append(bases, base{req, false})
+			bases = append(bases, base{req, false, 0})
 		case 1:
 			f := gen.GenAnnotFile(rr, i, gen.AnnotOpts{})
 			gen.AddHeaders(rr.Fork("h"), f)
-			bases = append(bases, base{&ir.Request{Files: []*ir.File{f}, Generate: []string{f.Name}}, false})
+			bases = append(bases, base{&ir.Request{Files: []*ir.File{f}, Generate: []string{f.Name}}, false, 0})
 		case 2:
 			f := gen.GenAnnotFile(rr, i, gen.AnnotOpts{})
 			f2 := gen.GenAnnotFile(rr.Fork("second"), i, gen.AnnotOpts{NoService: true, FileName: fmt.Sprintf("a%d/types.proto", i), MsgPrefix: "T"})
-			bases = append(bases, base{&ir.Request{Files: []*ir.File{f, f2}, Generate: []string{f.Name, f2.Name}}, true})
+			bases = append(bases, base{&ir.Request{Files: []*ir.File{f, f2}, Generate: []string{f.Name, f2.Name}}, true, 0})
 		default:
-			bases = append(bases, base{crossFileUnwrap(i), true})
+			if i%8 == 3 {
+				bases = append(bases, base{crossFileUnwrap(i), true, 0})
+			} else {
+				bases = append(bases, base{crossFileRootUnwrap(i), true, 0})
+			}
 		}
 	}
+	// a 50/50 order flip survives r identical runs with probability 2^-(r-1): repeat these often
+	bases = append(bases, base{orderSensitive(9000), false, c.N(14, 24)})
 	type cmpJob struct {
 		b       base
 		plugin  string
@@ -126,7 +172,11 @@ func C15(c *Ctx) error {
 		Services: []*ir.Service{{Name: "AlienSvc", BasePath: "/zz", Methods: []*ir.Method{{Name: "Ping", Input: ".zz.unrelated.Alien", Output: ".zz.unrelated.Alien"}}}}}
 	for _, b := range bases {
 		for _, p := range plug.All {
-			for rep := 1; rep < k; rep++ {
+			reps := k
+			if b.reps > 0 {
+				reps = b.reps
+			}
+			for rep := 1; rep < reps; rep++ {
 				jobs = append(jobs, &cmpJob{b: b, plugin: p, variant: fmt.Sprintf("repeat#%d", rep), altReq: b.req})
 			}
 			extra := b.req.Clone()
